@@ -3,7 +3,8 @@
 # Applies a seeded change to /repo, runs the check, and undoes the change straight afterwards.
 id=$1; patch=$2; tier=${3:-quick}
 cd /verif
-git -C /repo apply --recount "$(realpath "$patch")" || { echo "patch does not apply"; exit 3; }
+p=$(realpath "$patch")
+git -C /repo apply --recount "$p" 2>/dev/null || (cd /repo && patch -p1 -F3 -s --no-backup-if-mismatch < "$p") || { echo "patch does not apply"; git -C /repo checkout -- .; exit 3; }
 ./check $id $tier > /tmp/seedtest.$$.out 2>&1; rc=$?
 git -C /repo checkout -- . 
 grep -E "^(VIOLATION|KNOWN|OK|BROKEN|part )" /tmp/seedtest.$$.out | cut -c1-400
